@@ -937,7 +937,7 @@ func (r *envelopingReader) prepareNext() error {
 			r.rw.reportError(err)
 			return err
 		}
-		r.current = io.LimitReader(r.r, int64(env.length))
+		r.current = &exactLengthReader{r: r.r, rw: r.rw, remaining: int64(env.length)}
 	}
 
 	if r.rw.op.serverEnveloper == nil {
@@ -1869,6 +1869,33 @@ func (l *limitWriter) Write(data []byte) (n int, err error) {
 		return 0, err
 	}
 	return l.buf.Write(data)
+}
+
+// exactLengthReader reads the announced number of bytes of one message
+// from r. Unlike io.LimitReader it does not take an early end of r for
+// the end of the message: that is a truncated message.
+type exactLengthReader struct {
+	r         io.Reader
+	rw        *responseWriter
+	remaining int64
+}
+
+func (e *exactLengthReader) Read(data []byte) (n int, err error) {
+	if e.remaining <= 0 {
+		return 0, io.EOF
+	}
+	if int64(len(data)) > e.remaining {
+		data = data[:e.remaining]
+	}
+	n, err = e.r.Read(data)
+	e.remaining -= int64(n)
+	if errors.Is(err, io.EOF) && e.remaining > 0 {
+		err = io.ErrUnexpectedEOF
+		if e.rw != nil {
+			e.rw.reportError(err)
+		}
+	}
+	return n, err
 }
 
 type hardLimitReader struct {
